@@ -21,7 +21,7 @@ def split_tasks(worlds, alphabet_size_hint, extra=None):
     return out
 
 
-def run_history_task(make_explorer, world, root, only_first, *, params=None, minimise=True):
+def run_history_task(make_explorer, world, root, only_first, *, params=None, minimise=True, classify=None):
     ex = make_explorer(world)
     try:
         ex.subtree(root, only_first=only_first)
@@ -33,7 +33,7 @@ def run_history_task(make_explorer, world, root, only_first, *, params=None, min
     # one representative per raw class is minimised; the others are counted
     groups: dict = {}
     for v in raw:
-        groups.setdefault(MIN.raw_class(v), []).append(v)
+        groups.setdefault(classify(v) if classify else MIN.raw_class(v), []).append(v)
     out = []
     for rc, vs in groups.items():
         vs.sort(key=lambda v: len(v["history"]))
@@ -41,7 +41,7 @@ def run_history_task(make_explorer, world, root, only_first, *, params=None, min
         if minimise:
             v = MIN.minimise(v, lambda w, h: X.check_history(make_explorer, w, h))
         v = dict(v)
-        v["class"] = MIN.vclass(v)
+        v["class"] = classify(v) if classify else MIN.vclass(v)
         v["count"] = len(vs)
         v["kinds"] = T.kinds(v["history"])
         v["py"] = T.py_history(v["history"])
